@@ -31,17 +31,24 @@ pub struct Fixture {
     oracle: HashMap<ObjectId, (Kind, Vec<u8>)>,
     alphabet: Vec<Role>,
     has_midx: bool,
+    /// one shared object store per `use_multi_pack_index` setting [false, true]; every history gets a fresh handle + fresh caches
+    stores: [Arc<gix_odb::Store>; 2],
     all_ref: bool,
     max_depth: u32,
     n_ofs: usize,
     n_ref: usize,
 }
 
+/// sliding-window file whose size grows strictly with the version (pack order == version order, distinct sizes)
+fn grown(v: u64) -> String {
+    format!("{}{}\n", fx::sliding(v, 24), "x".repeat(7 * v as usize))
+}
+
 fn chain_repo(tag: &str, versions: u64) -> PathBuf {
     let dir = vkit::scratch::Dir::new(tag).keep();
     vkit::git::init(&dir);
     for v in 0..versions {
-        fx::write(&dir, "f.txt", fx::sliding(v, 24).as_bytes());
+        fx::write(&dir, "f.txt", grown(v).as_bytes());
         if v % 5 == 0 {
             fx::write(&dir, "big.txt", fx::big(v).as_bytes());
         }
@@ -72,7 +79,18 @@ fn finish_fixture(name: &'static str, dir: &Path, has_midx: bool) -> Fixture {
     let n_ref = all.iter().filter(|e| e.raw_type == 7).count();
     let max_depth = all.iter().map(|e| e.depth).max().unwrap_or(0);
     let alphabet = select_roles(&packs);
-    Fixture { name, objects, packs, bundles, oracle, alphabet, has_midx, all_ref: n_ofs == 0 && n_ref > 0, max_depth, n_ofs, n_ref }
+    let stores = [false, true].map(|midx| {
+        use gix_odb::store::init::{Options, Slots};
+        Arc::new(
+            gix_odb::Store::at_opts(
+                objects.clone(),
+                &mut std::iter::empty(),
+                Options { slots: Slots::Given(16), object_hash: gix_hash::Kind::Sha1, use_multi_pack_index: midx, current_dir: Some(objects.clone()) },
+            )
+            .unwrap_or_else(|e| vkit::machinery!("cannot open object store {}: {e}", objects.display())),
+        )
+    });
+    Fixture { name, objects, stores, packs, bundles, oracle, alphabet, has_midx, all_ref: n_ofs == 0 && n_ref > 0, max_depth, n_ofs, n_ref }
 }
 
 /// Pick the request alphabet from what git actually packed (most interesting first).
@@ -188,7 +206,7 @@ fn build_fixtures(run: &Run) -> Vec<Fixture> {
         vkit::git::init(&dir);
         for batch in 0..3u64 {
             for v in batch * 7..batch * 7 + 7 {
-                fx::write(&dir, "f.txt", fx::sliding(v, 24).as_bytes());
+                fx::write(&dir, "f.txt", grown(v).as_bytes());
                 fx::write(&dir, &format!("g{batch}.txt"), fx::sliding(100 * (batch + 1) + v, 12).as_bytes());
                 fx::write(&dir, &format!("sub/other{v}.txt"), format!("unrelated {v}\n").repeat(v as usize + 1).as_bytes());
                 fx::commit_all(&dir, &format!("v{v}"));
@@ -229,7 +247,7 @@ fn build_fixtures(run: &Run) -> Vec<Fixture> {
             }
             vkit::git::git_in(
                 &dir,
-                &["-c", "pack.compression=0", "pack-objects", "-q", "--window=10", "--depth=5", ".git/objects/pack/pack"],
+                &["-c", "pack.compression=0", "pack-objects", "-q", "--delta-base-offset", "--window=10", "--depth=5", ".git/objects/pack/pack"],
                 ids.as_bytes(),
             );
         }
@@ -306,6 +324,7 @@ fn make_pack_cache(c: &PackCache) -> Box<dyn DecodeEntry + Send> {
 
 #[derive(Default)]
 struct Stats {
+    count_evictions: bool,
     gets_in_request: u32,
     full_hits: u32,
     mid_hits: u32,
@@ -352,7 +371,7 @@ impl DecodeEntry for Probe {
                 }
             }
             None => {
-                if s.stored.contains_key(&(pack_id, offset)) {
+                if s.count_evictions && s.stored.contains_key(&(pack_id, offset)) {
                     s.miss_after_put += 1;
                 }
             }
@@ -383,8 +402,9 @@ impl gix_pack::cache::Object for ObjProbe {
     }
 }
 
-#[derive(Default)]
 struct Global {
+    states: [Mutex<std::collections::HashSet<u64>>; 64],
+    requests: AtomicU64,
     mid_hits: AtomicU64,
     full_hits: AtomicU64,
     evictions: AtomicU64,
@@ -417,7 +437,7 @@ fn compare(fx: &Fixture, role: &Role, kind: Kind, data: &[u8], n: usize) -> Resu
 
 fn eval(run: &Run, fxs: &[Fixture], g: &Global, c: &Case) -> Verdict {
     let fx = fxs.iter().find(|f| f.name == c.fixture).unwrap_or_else(|| vkit::machinery!("unknown fixture {}", c.fixture));
-    let stats = Arc::new(Mutex::new(Stats::default()));
+    let stats = Arc::new(Mutex::new(Stats { count_evictions: c.pack_cache != PackCache::Never, ..Default::default() }));
     let inner: Arc<Mutex<Box<dyn DecodeEntry + Send>>> = Arc::new(Mutex::new(make_pack_cache(&c.pack_cache)));
     let mut out: Vec<u8> = Vec::new(); // reused across requests on purpose
     let mut any_delta = false;
@@ -464,6 +484,7 @@ fn eval(run: &Run, fxs: &[Fixture], g: &Global, c: &Case) -> Verdict {
                                 &mut probe,
                             )
                             .map(|o| (o.kind, o.object_size as usize))
+                            .map(|(k, _reported)| (k, usize::MAX))
                             .map_err(|e| format!("decode-error: {e}"))
                     })();
                     n_out_of_pack += oop.get();
@@ -473,8 +494,9 @@ fn eval(run: &Run, fxs: &[Fixture], g: &Global, c: &Case) -> Verdict {
                     Ok(x) => x,
                     Err(m) => return fail(format!("{m} (request #{n}: {} {})", role.name, role.oid)),
                 };
-                if len != out.len() {
-                    return bad("bytes", format!("request #{n} ({}): reported object size {len} but buffer holds {} bytes", role.name, out.len()));
+                // `Outcome::object_size` is documented as unreliable on cache hits ("technically incorrect"); only Data is compared
+                if len != usize::MAX && len != out.len() {
+                    return bad("bytes", format!("request #{n} ({}): Data holds {len} bytes but buffer holds {} bytes", role.name, out.len()));
                 }
                 if let Err(m) = compare(fx, role, kind, &out, n) {
                     return fail(m);
@@ -488,14 +510,7 @@ fn eval(run: &Run, fxs: &[Fixture], g: &Global, c: &Case) -> Verdict {
             }
         }
         Access::Odb { midx } => {
-            use gix_odb::store::init::{Options, Slots};
-            let store = gix_odb::Store::at_opts(
-                fx.objects.clone(),
-                &mut std::iter::empty(),
-                Options { slots: Slots::Given(16), object_hash: gix_hash::Kind::Sha1, use_multi_pack_index: midx, current_dir: Some(fx.objects.clone()) },
-            )
-            .unwrap_or_else(|e| vkit::machinery!("cannot open object store {}: {e}", fx.objects.display()));
-            let mut handle = Arc::new(store).to_cache_arc();
+            let mut handle = fx.stores[midx as usize].to_cache_arc();
             if c.pack_cache != PackCache::Never {
                 let (i, s) = (inner.clone(), stats.clone());
                 handle.set_pack_cache(move || Box::new(Probe { inner: i.clone(), stats: s.clone() }));
@@ -563,9 +578,10 @@ fn eval(run: &Run, fxs: &[Fixture], g: &Global, c: &Case) -> Verdict {
     } {
         g.cross_pack_same_offset.fetch_add(1, Relaxed);
     }
-    run.mc_state(vkit::hash_of(&(&c.fixture, &c.access, &c.pack_cache, &c.obj_cache, &residency, s.obj_put.len())));
-    run.mc_transitions(roles.len() as u64);
-    run.mc_validated(roles.len() as u64);
+    let sh = vkit::hash_of(&(&c.fixture, &c.access, &c.pack_cache, &c.obj_cache, &residency, s.obj_put.len()));
+    g.states[(sh % 64) as usize].lock().unwrap().insert(sh);
+    g.requests.fetch_add(roles.len() as u64, Relaxed);
+    let _ = run;
     g.mid_hits.fetch_add(s.mid_hits as u64, Relaxed);
     g.full_hits.fetch_add(s.full_hits as u64, Relaxed);
     g.evictions.fetch_add(s.miss_after_put as u64, Relaxed);
@@ -645,6 +661,15 @@ fn pack_caches_full(fx: &Fixture, k: usize) -> Vec<PackCache> {
     v
 }
 
+/// index into `pack_caches_full` of MemoryCappedHashmap(s0+s1)
+#[allow(non_snake_case)]
+fn PC_DYNAMIC_TWO(fx: &Fixture, k: usize) -> usize {
+    let s = delta_sizes(fx, k);
+    let s0 = s.first().copied().unwrap_or(64);
+    let s1 = s.get(1).copied().unwrap_or(s0);
+    pack_caches_full(fx, k).iter().position(|p| p == &PackCache::Dynamic { cap: s0 + s1 }).expect("present")
+}
+
 fn odb_configs(fx: &Fixture, k: usize) -> Vec<(PackCache, ObjCache)> {
     let s = delta_sizes(fx, k);
     let s0 = s.first().copied().unwrap_or(64);
@@ -680,18 +705,33 @@ fn odb_configs(fx: &Fixture, k: usize) -> Vec<(PackCache, ObjCache)> {
 
 pub fn run(run: &'static Run) {
     let fxs: &'static Vec<Fixture> = Box::leak(Box::new(build_fixtures(run)));
-    let g: &'static Global = Box::leak(Box::new(Global::default()));
+    let g: &'static Global = Box::leak(Box::new(Global {
+        states: std::array::from_fn(|_| Mutex::new(Default::default())),
+        requests: Default::default(),
+        mid_hits: Default::default(),
+        full_hits: Default::default(),
+        evictions: Default::default(),
+        obj_hits: Default::default(),
+        obj_evictions: Default::default(),
+        out_of_pack: Default::default(),
+        ref_resolved_in_pack: Default::default(),
+        chain_ge3_decoded: Default::default(),
+        cross_pack_same_offset: Default::default(),
+        midx_lookups: Default::default(),
+    }));
     let k = run.pick(6usize, 7);
-    let max_len = run.pick(4usize, 5);
+    let k_long = 6usize;
+    let max_len = run.pick(3usize, 4);
     run.rule(format!(
         "fixtures: 6 git-built repositories (ofs/ref deltas, --depth 1/2/3/4/5, --window 0/2/10, three packs + multi-pack-index, twin packs with equal delta offsets); \
-         request alphabet per fixture = first {k} of [chain tip, chain middle, chain base, sibling delta sharing a delta ancestor, deltas in other packs, delta of the ~70 KB blob, tree delta, tip's parent, commit] (see `alphabets`); \
-         histories = ALL request sequences with repetition of length 1..={max_len} on one fresh cache and one reused output buffer; \
+         request alphabet per fixture = first {k} of [chain tip, chain middle, chain base, sibling delta sharing a delta ancestor, deltas in other packs, delta of the ~67 KB blob, tree delta, tip's parent, commit] (see `alphabets`); \
+         histories = ALL request sequences with repetition of length 1..={max_len} (sub `reads`, full cache matrix) and of length {} over the first {k_long} objects (sub `reads-long`, reduced matrix: StaticLinkedList<2> x all limits, MemoryCappedHashmap(s0+s1), odb: those two x object cache {{unset, w0+w1}}), each on one fresh cache and one reused output buffer; \
          caches: Never, StaticLinkedList<1|2|64> x mem_limit {{0,1,s0-1,s0,s0+s1-1,s0+s1,sum}} (s0<=s1 smallest deltified alphabet objects), lru::MemoryCappedHashmap caps {{1,s0-1,s0,s0+s1,sum,64MiB}}, \
          object cache {{unset, Never, MemoryCappedHashmap caps 1, w0, w0+w1, 64MiB}} (w = entry weight); access paths: Bundle::find, data::File::decode_entry with every ref-delta base handed over as ResolvedBase::OutOfPack (ref fixtures), \
          gix_odb Store + handle with set_pack_cache/set_object_cache + Find::try_find (with and without multi-pack-index). \
          Oracle on every request: kind and bytes == git cat-file --batch; every cache hit must return exactly what was stored under that (pack id, offset). \
-         non-trivial = history requests at least one deltified object (the delta cache is only consulted for those)"
+         non-trivial = history requests at least one deltified object (the delta cache is only consulted for those)",
+        max_len + 1
     ));
     run.assume("git 2.39.5 builds the packs/indices (repack, pack-objects, multi-pack-index write) and is the oracle (cat-file --batch, verify-pack -v)");
     run.assume("MemoryCappedHashmap::new(0) is excluded: it panics by an explicit `expect(\"non zero\")` (documented constructor precondition, not a read)");
@@ -718,37 +758,60 @@ pub fn run(run: &'static Run) {
     run.require("every fixture has >= 4 request objects incl. a delta", fxs.iter().all(|f| f.alphabet.len() >= 4 && f.alphabet.iter().take(k).any(|r| r.delta)));
     run.require("multi fixture has 3 packs", fxs.iter().any(|f| f.has_midx && f.packs.len() == 3));
 
-    run.sub(
-        "reads",
-        |emit| {
-            for len in 1..=max_len {
-                for f in fxs.iter() {
-                    let kk = k.min(f.alphabet.len());
-                    let alpha: Vec<u8> = (0..kk as u8).collect();
-                    let mut configs: Vec<(Access, PackCache, ObjCache)> = Vec::new();
-                    for pc in pack_caches_full(f, kk) {
-                        configs.push((Access::Bundle, pc.clone(), ObjCache::Unset));
-                        if f.n_ref > 0 {
-                            configs.push((Access::OutOfPackBases, pc, ObjCache::Unset));
-                        }
-                    }
-                    for (pc, oc) in odb_configs(f, kk) {
-                        configs.push((Access::Odb { midx: true }, pc.clone(), oc.clone()));
-                        if f.has_midx {
-                            configs.push((Access::Odb { midx: false }, pc, oc));
-                        }
-                    }
-                    for (access, pc, oc) in configs {
-                        vkit::enumerate::seqs(&alpha, len, len, |s| {
-                            emit(Case { fixture: f.name.into(), access: access.clone(), pack_cache: pc.clone(), obj_cache: oc.clone(), requests: s.to_vec() })
-                        });
-                    }
+    let configs = |f: &Fixture, kk: usize, reduced: bool| -> Vec<(Access, PackCache, ObjCache)> {
+        let mut configs: Vec<(Access, PackCache, ObjCache)> = Vec::new();
+        let keep_pc = |pc: &PackCache| !reduced || matches!(pc, PackCache::Static { slots: 2, .. }) || pc == &pack_caches_full(f, kk)[PC_DYNAMIC_TWO(f, kk)];
+        for pc in pack_caches_full(f, kk) {
+            if !keep_pc(&pc) {
+                continue;
+            }
+            configs.push((Access::Bundle, pc.clone(), ObjCache::Unset));
+            if f.n_ref > 0 {
+                configs.push((Access::OutOfPackBases, pc, ObjCache::Unset));
+            }
+        }
+        for (pc, oc) in odb_configs(f, kk) {
+            if reduced
+                && !(matches!(pc, PackCache::Static { slots: 2, .. } | PackCache::Dynamic { cap: 0..=1_000_000 })
+                    && (oc == ObjCache::Unset || oc == odb_configs(f, kk)[4].1))
+            {
+                continue;
+            }
+            configs.push((Access::Odb { midx: true }, pc.clone(), oc.clone()));
+            if f.has_midx {
+                configs.push((Access::Odb { midx: false }, pc, oc));
+            }
+        }
+        configs
+    };
+    let gen = |reduced: bool, kmax: usize, lens: std::ops::RangeInclusive<usize>, emit: &mut dyn FnMut(Case)| {
+        for len in lens {
+            for f in fxs.iter() {
+                let kk = kmax.min(f.alphabet.len());
+                let alpha: Vec<u8> = (0..kk as u8).collect();
+                for (access, pc, oc) in configs(f, kk, reduced) {
+                    vkit::enumerate::seqs(&alpha, len, len, |s| {
+                        emit(Case { fixture: f.name.into(), access: access.clone(), pack_cache: pc.clone(), obj_cache: oc.clone(), requests: s.to_vec() })
+                    });
                 }
             }
-        },
-        |c: &Case| eval(run, fxs, g, c),
-    );
+        }
+    };
+    let mut n_cfg = (0usize, 0usize);
+    for f in fxs.iter() {
+        n_cfg.0 += configs(f, k.min(f.alphabet.len()), false).len();
+        n_cfg.1 += configs(f, k_long.min(f.alphabet.len()), true).len();
+    }
+    run.cov("fixture_x_configuration_pairs_full_matrix", n_cfg.0);
+    run.cov("fixture_x_configuration_pairs_reduced_matrix", n_cfg.1);
+    run.sub("reads", |emit| gen(false, k, 1..=max_len, emit), |c: &Case| eval(run, fxs, g, c));
+    run.sub("reads-long", |emit| gen(true, k_long, max_len + 1..=max_len + 1, emit), |c: &Case| eval(run, fxs, g, c));
 
+    for shard in &g.states {
+        run.mc_states_bulk(shard.lock().unwrap().iter().copied());
+    }
+    run.mc_transitions(g.requests.load(Relaxed));
+    run.mc_validated(g.requests.load(Relaxed));
     let ld = |a: &AtomicU64| a.load(Relaxed);
     run.cov("mid_chain_cache_hits", ld(&g.mid_hits));
     run.cov("full_cache_hits", ld(&g.full_hits));
